@@ -8,7 +8,7 @@ import (
 )
 
 // vText builds a text of up to T tokens, each a newline (in the convention
-// nl, chosen once), a space or a letter, and the reference position table
+// nl, chosen once), a space, a letter or a two-byte UTF-8 character, and the reference position table
 // derived from the TOKENS (DESIGN.md B.3), not from scanning bytes.
 type vPos struct {
 	line, col          int // 1-based
@@ -28,7 +28,7 @@ func vText(T int) (text []byte, pos []vPos, nl string) {
 		pending = pending[:0]
 	}
 	for i := 0; i < n; i++ {
-		tok := zzverif.OneOf("tok", "N x")
+		tok := zzverif.OneOf("tok", "N xE")
 		switch tok {
 		case 'N':
 			end := len(text)
@@ -42,6 +42,13 @@ func vText(T int) (text []byte, pos []vPos, nl string) {
 			line++
 			col = 1
 			start = len(text)
+		case 'E': // a two-byte UTF-8 character: positions are BYTE positions
+			for _, c := range []byte("é") {
+				pos = append(pos, vPos{line: line, col: col, lineStart: start})
+				pending = append(pending, len(text))
+				text = append(text, c)
+				col++
+			}
 		default:
 			pos = append(pos, vPos{line: line, col: col, lineStart: start})
 			pending = append(pending, len(text))
@@ -105,4 +112,33 @@ func VerifC16_RenderAnyIndex() {
 	e.SetIndex(bytes.Index(idx))
 	s := e.String()
 	zzverif.Assert(zzverif.Opaque(s) || len(s) > 0, "String() renders")
+}
+
+// VerifC16_RenderQuotesLine: with a concrete text and index (so the rendered
+// string is exact), String() carries the code prefix, the message - also one
+// containing '%' -, the line number and quotes the offending line.
+func VerifC16_RenderQuotesLine() {
+	zzverif.Expect("rendered")
+	texts := []string{"ab\ncd %s ef\ngh", "{\"a\": %}", "x", "  p%dq\r\nz"}
+	msgs := []string{"plain", "100% wrong", "%d %s %v"}
+	text := texts[zzverif.IntRange("text", 0, len(texts)-1)]
+	msg := msgs[zzverif.IntRange("msg", 0, len(msgs)-1)]
+	i := zzverif.IntRange("index", 0, len(text)-1)
+	f := fs.NewFile("file.jst", text)
+	e := NewJSchemaError(f, errs.ErrGeneric.F(msg))
+	e.SetIndex(bytes.Index(i))
+	s := e.String()
+	zzverif.Reach("rendered")
+	src := e.SourceSubString()
+	contains := func(h, n string) bool {
+		for k := 0; k+len(n) <= len(h); k++ {
+			if h[k:k+len(n)] == n {
+				return true
+			}
+		}
+		return false
+	}
+	zzverif.Assert(contains(s, "ERROR: "+msg+"\n"), "the rendering starts with the prefix and the message verbatim")
+	zzverif.Assert(contains(s, "in line "+string(rune('0'+e.Line()))+" on file file.jst"), "the rendering names the line and the file")
+	zzverif.Assert(contains(s, "> "+src+"\n"), "the rendering quotes the offending line")
 }
